@@ -11,6 +11,7 @@ import Mathlib.Data.List.Infix
 import Mathlib.Tactic.Common
 import TfelVerif.C32.Lemmas
 import TfelVerif.C33.Model
+import TfelVerif.C33.Checks
 
 namespace TfelVerif.C33
 open TfelVerif TfelVerif.C32
@@ -483,56 +484,6 @@ theorem sim_swap_sim {H H' : α → Prop} {table : List (List α × List α)} (g
         rw [sim_cons_none hnone]
         rw [ih x.length (by rw [← hn]; simp) x (fun hin => hs (hin.trans (List.suffix_cons b x).isInfix)) rfl]
 
-/-! ### evaluating the hypotheses on a concrete table -/
-
-/-- `NoStart p q`, computed -/
-def noStartB (p q : List α) : Bool :=
-  (List.range q.length).all fun k => !(p.isPrefixOf (q.drop k) || (q.drop k).isPrefixOf p)
-
-def apartB : List (List α × List α) → Bool
-  | [] => true
-  | a :: l => (l.all fun b => noStartB a.1 b.1 && noStartB b.1 a.1) && apartB l
-
-/-- all hypotheses of `Good` for the class `h`, computed -/
-def goodB (h : α → Bool) (rules : List (List α × List α)) : Bool :=
-  (rules.all fun e => !e.1.isEmpty && e.1.all h && !e.2.isEmpty && e.2.all (fun c => !h c)) &&
-    apartB rules
-
-theorem noStart_of_noStartB {p q : List α} (h : noStartB p q = true) : NoStart p q := by
-  intro k hk hc
-  unfold noStartB at h
-  rw [List.all_eq_true] at h
-  have := h k (List.mem_range.mpr hk)
-  simp only [Bool.not_eq_true', Bool.or_eq_false_iff] at this
-  rcases hc with hc | hc
-  · rw [List.isPrefixOf_iff_prefix.mpr hc] at this; exact absurd this.1 (by simp)
-  · rw [List.isPrefixOf_iff_prefix.mpr hc] at this; exact absurd this.2 (by simp)
-
-theorem pairwise_of_apartB {rules : List (List α × List α)} (h : apartB rules = true) :
-    rules.Pairwise (fun a b => NoStart a.1 b.1 ∧ NoStart b.1 a.1) := by
-  induction rules with
-  | nil => exact List.Pairwise.nil
-  | cons a l ih =>
-    unfold apartB at h
-    rw [Bool.and_eq_true, List.all_eq_true] at h
-    refine List.pairwise_cons.mpr ⟨?_, ih h.2⟩
-    intro b hb
-    have := h.1 b hb
-    rw [Bool.and_eq_true] at this
-    exact ⟨noStart_of_noStartB this.1, noStart_of_noStartB this.2⟩
-
-theorem good_of_goodB {h : α → Bool} {rules : List (List α × List α)} (hg : goodB h rules = true) :
-    Good (fun c => h c = true) rules := by
-  unfold goodB at hg
-  rw [Bool.and_eq_true, List.all_eq_true] at hg
-  have key : ∀ e ∈ rules, (e.1 ≠ [] ∧ ∀ c ∈ e.1, h c = true) ∧ (e.2 ≠ [] ∧ ∀ c ∈ e.2, ¬ h c = true) := by
-    intro e he
-    have := hg.1 e he
-    simp only [Bool.and_eq_true, Bool.not_eq_true', List.isEmpty_eq_false_iff, List.all_eq_true] at this
-    obtain ⟨⟨⟨h1, h2⟩, h3⟩, h4⟩ := this
-    exact ⟨⟨h1, h2⟩, h3, fun c hc => by simp [h4 c hc]⟩
-  exact ⟨fun e he => (key e he).1, fun e he => (key e he).2, pairwise_of_apartB hg.2⟩
-
 /-! ### a cheap sufficient condition: lead bytes
 
 If every pattern is a *lead* byte followed by non-lead bytes, and the lead byte determines the
@@ -602,13 +553,6 @@ theorem eq_of_infix_of_leadCode {L : α → Prop} {len : α → Nat} {rules : Li
     have : h ∈ t' := by rw [← e.2]; simp
     exact ht' h this hL
 
-/-- `LeadCode`, computed -/
-def leadB (L : α → Bool) (len : α → Nat) (rules : List (List α × List α)) : Bool :=
-  rules.all fun e =>
-    match e.1 with
-    | [] => false
-    | h :: t => L h && t.all (fun c => !L c) && decide (e.1.length = len h)
-
 theorem leadCode_of_leadB {L : α → Bool} {len : α → Nat} {rules : List (List α × List α)}
     (h : leadB L len rules = true) (hnd : (rules.map Prod.fst).Nodup) :
     LeadCode (fun c => L c = true) len rules := by
@@ -620,12 +564,8 @@ theorem leadCode_of_leadB {L : α → Bool} {len : α → Nat} {rules : List (Li
   | nil => rw [h1] at this; cases this
   | cons h0 t =>
     simp only [h1] at this
-    simp only [Bool.and_eq_true, List.all_eq_true, Bool.not_eq_true', decide_eq_true_iff] at this
+    simp only [Bool.and_eq_true, List.all_eq_true, Bool.not_eq_true', Nat.beq_eq_true_eq] at this
     exact ⟨h0, t, rfl, this.1.1, fun c hc => by simp [this.1.2 c hc], this.2⟩
-
-/-- bytes of patterns in `H`, replacements non-empty and outside `H`, computed -/
-def classesB (h : α → Bool) (rules : List (List α × List α)) : Bool :=
-  rules.all fun e => !e.1.isEmpty && e.1.all h && !e.2.isEmpty && e.2.all (fun c => !h c)
 
 theorem good_of_checks {h L : α → Bool} {len : α → Nat} {rules : List (List α × List α)}
     (hc : classesB h rules = true) (hl : leadB L len rules = true)
@@ -639,5 +579,51 @@ theorem good_of_checks {h L : α → Bool} {len : α → Nat} {rules : List (Lis
     exact ⟨⟨h1, h2⟩, h3, fun c hc => by simp [h4 c hc]⟩
   exact ⟨fun e he => (key e he).1, fun e he => (key e he).2,
     apart_of_leadCode (leadCode_of_leadB hl hnd)⟩
+
+/-! ### duplicate detection with a bit set -/
+
+theorem nodup_of_noDupGo : ∀ (l : List Nat) (seen : Nat), noDupGo l seen = true →
+    l.Nodup ∧ ∀ k ∈ l, seen.testBit k = false := by
+  intro l
+  induction l with
+  | nil => intro seen _; exact ⟨List.nodup_nil, fun k hk => by cases hk⟩
+  | cons k ks ih =>
+    intro seen h
+    unfold noDupGo at h
+    rw [Bool.and_eq_true, Bool.not_eq_true'] at h
+    obtain ⟨hk, hrest⟩ := h
+    obtain ⟨hnd, hseen⟩ := ih _ hrest
+    have hbit : ∀ j ∈ ks, j ≠ k ∧ seen.testBit j = false := by
+      intro j hj
+      have := hseen j hj
+      rw [Nat.testBit_lor, Bool.or_eq_false_iff] at this
+      refine ⟨?_, this.1⟩
+      intro e
+      have h2 := this.2
+      rw [e, Nat.one_shiftLeft, Nat.testBit_two_pow_self] at h2
+      cases h2
+    refine ⟨List.nodup_cons.mpr ⟨fun hmem => (hbit k hmem).1 rfl, hnd⟩, ?_⟩
+    intro j hj
+    rcases List.mem_cons.mp hj with e | e
+    · rw [e]; exact hk
+    · exact (hbit j e).2
+
+theorem nodup_of_noDupKeys {β : Type} (f : β → Nat) (l : List β)
+    (h : noDupKeys (l.map f) = true) : l.Nodup :=
+  List.Nodup.of_map f (nodup_of_noDupGo _ 0 h).1
+
+theorem eq_of_eqBytes : ∀ (a b : List Nat), eqBytes a b = true → a = b := by
+  intro a
+  induction a with
+  | nil => intro b h; cases b with
+    | nil => rfl
+    | cons _ _ => simp [eqBytes] at h
+  | cons x xs ih =>
+    intro b h
+    cases b with
+    | nil => simp [eqBytes] at h
+    | cons y ys =>
+      simp only [eqBytes, Bool.and_eq_true, Nat.beq_eq_true_eq] at h
+      rw [h.1, ih ys h.2]
 
 end TfelVerif.C33
